@@ -94,3 +94,36 @@ let () =
               | None -> "invalid"
               | Some o -> show_sobj (syn_canon o))
     | _ -> "?args")
+
+(* Obj/ParseModel: model of impl::Parser / QPDFObjectHandle::parse(context, string) *)
+let pwarn_name = function
+  | PW_tok e -> err_name e | PW_eof -> "ueof" | PW_brace -> "brace" | PW_arr_close -> "arrclose"
+  | PW_dict_close -> "dictclose" | PW_empty -> "empty" | PW_unknown_str -> "unkstr" | PW_unknown_null -> "unknull"
+  | PW_unknown_type -> "unktype" | PW_parse_error -> "parseerr" | PW_bad_ref -> "badref" | PW_premature -> "premature"
+  | PW_nonname_ignored -> "nonname" | PW_fake_key -> "fakekey" | PW_dup_key -> "dupkey" | PW_too_many -> "toomany"
+  | PW_limit_nesting -> "limnest" | PW_limit_container_damaged -> "limcd" | PW_limit_container -> "limc"
+  | PW_limit_errors -> "limerr" | PW_giveup_arr -> "giveuparr" | PW_giveup_dict -> "giveupdict"
+  | PW_giveup_endobj -> "giveupend" | PW_exception -> "exception"
+
+let rec show_mobj = function
+  | MoNull -> "null"
+  | MoBool b -> if b then "b:1" else "b:0"
+  | MoInt z -> "i:" ^ show_z z
+  | MoReal t -> "r:" ^ hexbytes t
+  | MoStr s -> "s:" ^ hexbytes s
+  | MoName n -> "n:" ^ hexbytes (match n with _ :: r -> r | [] -> [])
+  | MoArr l -> "[ " ^ String.concat "" (List.map (fun o -> show_mobj o ^ " ") l) ^ "]"
+  | MoDict d -> "<< " ^ String.concat "" (List.map (fun (k, v) -> match v with
+        | MoNull -> ""
+        | _ -> "n:" ^ hexbytes (match k with _ :: r -> r | [] -> []) ^ " " ^ show_mobj v ^ " ") d) ^ ">>"
+  | MoRef (i, g) -> "ref:" ^ show_z i ^ ":" ^ show_z g
+  | MoOp w -> "op:" ^ hexbytes w
+
+let show_warns w = if w = [] then "0" else String.concat "," (List.map pwarn_name w)
+
+let () =
+  register "objparse" (fun args -> match args with
+    | [h] -> (match parse_string (unhexbytes h) with
+              | PSR_ok (o, w) -> show_mobj o ^ " w=" ^ show_warns w
+              | PSR_trailing w -> "exc:trailing w=" ^ show_warns w)
+    | _ -> "?args")
